@@ -110,6 +110,7 @@ type v06ConnPlan struct {
 	dialFail      bool
 	msg           string
 	foWrite       int // fast open + dial failure: bytes written before the first Read
+	banner        int  // server-speaks-first target: bytes already readable on the dialled conn when Outbound.TCP returns
 	slowDial      bool // the outbound's dial is parked until the harness releases it
 	preDL         int  // fast open + slow dial: deadline op while the response cannot exist yet (-1 none)
 	preCW         int  // fast open + slow dial: client write while the dial is parked
@@ -161,6 +162,9 @@ func (p *v06Plan) String() string {
 		if c.dialFail {
 			fmt.Fprintf(&sb, " DIALFAIL msg=%dB foWrite=%d", len(c.msg), c.foWrite)
 			continue
+		}
+		if c.banner > 0 {
+			fmt.Fprintf(&sb, " BANNER%d(target speaks first: readable when the dial returns)", c.banner)
 		}
 		fmt.Fprintf(&sb, " readBuf=%d maxRead=%d errWithData=%v:", c.readBuf, c.maxRead, c.errWithData)
 		for s, ops := range c.segs {
@@ -222,6 +226,9 @@ func (p *v06Plan) fingerprint() string {
 			}
 		}
 		fmt.Fprintf(&sb, "T%d@%d+%d", c.term, c.termSeg, len(c.trailing))
+		if c.banner > 0 {
+			sb.WriteString("b" + v06SizeClass(c.banner))
+		}
 	}
 	return sb.String()
 }
@@ -274,6 +281,9 @@ func (p *v06Plan) classes() []string {
 			continue
 		}
 		cl = append(cl, "term:"+v06TermNames[c.term])
+		if c.banner > 0 {
+			cl = append(cl, fmt.Sprintf("banner:fastopen=%v", p.fastOpen), "chunk:"+v06SizeClass(c.banner))
+		}
 		if len(c.trailing) > 0 {
 			cl = append(cl, "term:with-trailing-writes")
 		}
@@ -447,6 +457,17 @@ func v06GenPlan(rt *rapid.T) *v06Plan {
 			}
 		}
 		p.conns = append(p.conns, c)
+	}
+	// drawn last so that earlier draws keep their positions: server-speaks-first targets
+	for i := range p.conns {
+		c := &p.conns[i]
+		if c.dialFail {
+			continue
+		}
+		if rapid.IntRange(0, 4).Draw(rt, fmt.Sprintf("c%dBannerKind", i)) >= 3 {
+			c.banner = rapid.OneOf(rapid.IntRange(1, 64), rapid.IntRange(1, 2000), rapid.SampledFrom([]int{1, 1200, 32768, 40000})).Draw(rt, fmt.Sprintf("c%dBanner", i))
+			c.chunksT++
+		}
 	}
 	return p
 }
@@ -1256,6 +1277,7 @@ func v06RunPlan(p *v06Plan, st *vStats) string {
 		c.dialFail, c.dialMsg = cp.dialFail, cp.msg
 		c.maxRead, c.errWithData = cp.maxRead, cp.errWithData
 		c.slowDial = cp.slowDial
+		c.tSent = int64(cp.banner)
 		r.conns = append(r.conns, c)
 		r.plans = append(r.plans, cp)
 	}
